@@ -1,16 +1,129 @@
 /-
 C12 — property theorems (every `theorem` in this module is a proof obligation; `bin/check C12` audits each
 one's axioms). Helper lemmas live in Kap/Proofs/C12*.lean.
+
+Statement (properties.jsonl): given parents that each deliver their points in time order, join emits for
+every group and (tolerance-rounded) timestamp one joined point per k-th occurrence present in all parents
+(inner) or in any parent with the configured fill (outer), with fields prefixed by the as() names, and
+union emits every parent message exactly once, keeping each parent's order, in non-decreasing time order
+overall. The multiset of outputs is the same for every interleaving of the parents, and when the parents
+end everything still buffered is flushed.
+
+The arrival order at the node (the schedule of the multiConsumer goroutines) is an explicit, universally
+quantified INPUT of every theorem below: `arrivals : List (parent × message)`.
 -/
-import Kap.Spec.C12
+import Kap.Proofs.C12Union
+import Kap.Proofs.C12Join
 namespace Kap.Props.C12
-open Kap.C12
+open Kap.C12 Kap.C12.Spec
+
+/-! ### CircularQueue refines a FIFO list -/
+
+/-- `NewCircularQueue(buf...)` holds exactly `buf`. -/
+theorem cq_new_refines {α : Type} (buf : List α) : (CQ.new buf).Inv ∧ (CQ.new buf).Rel buf :=
+  ⟨CQ.inv_new buf, CQ.rel_new buf⟩
+
+/-- **cq_refines_list**: in EVERY state satisfying the index invariant (`head`/`tail`/`Len` in any of the
+plain, wrapped, full, head-at-cap configurations) that holds the list `l`: `Enqueue` = append at the back
+(also when it has to grow while wrapped), `Dequeue(n)` = drop `n` from the front (all when `n ≥ Len`,
+nothing when `n ≤ 0`), `Peek(i)` = the `i`-th element (panic exactly when out of range), `Len` = length;
+and the invariant is kept. -/
+theorem cq_refines_list {α : Type} (q : CQ α) (l : List α) (hI : q.Inv) (hR : q.Rel l) :
+    (∀ v, (q.enqueue v).Inv ∧ (q.enqueue v).Rel (l ++ [v])) ∧
+    (∀ n, (q.dequeue n).Inv ∧ (q.dequeue n).Rel (l.drop n.toNat)) ∧
+    (∀ i, q.peek i = if i < 0 ∨ i ≥ q.len then none else some l[i.toNat]?) ∧
+    q.len = l.length ∧ q.toList = l :=
+  ⟨fun v => ⟨CQ.inv_enqueue hI v, CQ.rel_enqueue hI hR v⟩,
+   fun n => ⟨CQ.inv_dequeue hI n, CQ.rel_dequeue hI hR n⟩,
+   CQ.rel_peek hR, CQ.rel_len hR, hR.toList_eq⟩
+
+/-- Model run of a queue: `new buf` followed by operations. -/
+def cqRun (buf : List Nat) (ops : List QOp) : CQ Nat :=
+  ops.foldl (fun q op => match op with | .enq v => q.enqueue v | .deq n => q.dequeue n) (CQ.new buf)
+
+/-- Every reachable queue (any initial buffer, any operation sequence, no size bound) satisfies the
+invariant and holds exactly what the FIFO-list specification `Spec.qRun` says. -/
+theorem cq_reachable_refines (buf : List Nat) (ops : List QOp) :
+    (cqRun buf ops).Inv ∧ (cqRun buf ops).Rel (qRun buf ops) ∧ (cqRun buf ops).toList = qRun buf ops := by
+  suffices h : ∀ (q : CQ Nat) (l : List Nat), q.Inv → q.Rel l →
+      (ops.foldl (fun q op => match op with | .enq v => q.enqueue v | .deq n => q.dequeue n) q).Inv ∧
+      (ops.foldl (fun q op => match op with | .enq v => q.enqueue v | .deq n => q.dequeue n) q).Rel (ops.foldl qStep l) by
+    have := h (CQ.new buf) buf (CQ.inv_new buf) (CQ.rel_new buf)
+    exact ⟨this.1, this.2, this.2.toList_eq⟩
+  induction ops with
+  | nil => intro q l hI hR; exact ⟨hI, hR⟩
+  | cons op ops ih =>
+    intro q l hI hR
+    simp only [List.foldl_cons]
+    cases op with
+    | enq v => exact ih _ _ (CQ.inv_enqueue hI v) (CQ.rel_enqueue hI hR v)
+    | deq n => exact ih _ _ (CQ.inv_dequeue hI n) (CQ.rel_dequeue hI hR n)
+
+/-- Non-vacuity: wrapped, full-while-wrapped (grow copies two segments) and head-at-cap states are reachable. -/
+example : let q := cqRun [1, 2, 3, 4] [.deq 2, .enq 5, .enq 6]
+    q.head = 2 ∧ q.tail = 2 ∧ q.len = 4 ∧ (q.enqueue 7).toList = [3, 4, 5, 6, 7] := by decide
+example : let q := cqRun [1, 2, 3, 4] [.deq 2, .enq 5, .enq 6, .deq 2]
+    q.head = 4 ∧ q.cap = 4 ∧ q.toList = [5, 6] := by decide
+
+/-! ### Union -/
+
+/-- **union_exactly_once, union_keeps_parent_order, union_flush** — for EVERY arrival order (interleaving of
+the parents), every number of parents, messages with arbitrary (even unordered) times: the output of the
+union node (over the real circular queue, `WCQ`), restricted to parent `i`, IS the sequence parent `i`
+delivered (modulo `rename`): nothing lost, nothing duplicated, nothing invented, each parent's order kept;
+and after `Finish` every source queue is empty. -/
+theorem union_exactly_once_in_order_flush (rename : String) (n : Nat) (arrivals : List (Nat × UMsg))
+    (hs : ∀ a ∈ arrivals, a.1 < n) :
+    unionExactlyOnceInOrder n (arrivals.map (fun a => (a.1, Union.renamed rename a.2)))
+      (Union.run rename n arrivals : UState (WCQ UMsg) × _).2 ∧
+    (∀ q ∈ (Union.run rename n arrivals : UState (WCQ UMsg) × _).1.sources, q.1.toList = [] ∧ q.1.len = 0) := by
+  obtain ⟨h1, h2⟩ := Union.run_exactly_once (Q := WCQ UMsg) rename n arrivals hs
+  refine ⟨h1, fun q hq => ⟨h2 q hq, ?_⟩⟩
+  have := CQ.rel_len q.2.2
+  rw [this]; exact congrArg List.length (h2 q hq)
+
+/-- Non-vacuity: two parents, parent 1 far ahead, duplicates at one timestamp. -/
+example : ((Union.run "" 2 [(1, ⟨5, 1, 0, "b"⟩), (1, ⟨5, 2, 0, "b"⟩), (1, ⟨9, 3, 0, "b"⟩), (0, ⟨5, 4, 0, "a"⟩)] :
+    UState (WCQ UMsg) × _).2.map (fun p => p.2.id)) = [4, 1, 2, 3] := by decide
+
+/-- **The multiset of union outputs is the same for every interleaving**: two arrival orders that are
+interleavings of the same per-parent sequences give outputs that are permutations of each other (and equal
+per parent). -/
+theorem union_multiset_interleaving_independent (rename : String) (n : Nat) (a₁ a₂ : List (Nat × UMsg))
+    (h₁ : ∀ a ∈ a₁, a.1 < n) (h₂ : ∀ a ∈ a₂, a.1 < n) (hsame : ∀ i, i < n → parentSeq i a₁ = parentSeq i a₂) :
+    ((Union.run rename n a₁ : UState (WCQ UMsg) × _).2).Perm (Union.run rename n a₂ : UState (WCQ UMsg) × _).2 := by
+  obtain ⟨⟨e1, t1⟩, _⟩ := Union.run_exactly_once (Q := WCQ UMsg) rename n a₁ h₁
+  obtain ⟨⟨e2, t2⟩, _⟩ := Union.run_exactly_once (Q := WCQ UMsg) rename n a₂ h₂
+  apply Union.perm_of_parentSeq_eq n _ _ t1 t2
+  intro i hi
+  rw [e1 i hi, e2 i hi]
+  have hm : ∀ a : List (Nat × UMsg), parentSeq i (a.map (fun a => (a.1, Union.renamed rename a.2))) =
+      (parentSeq i a).map (Union.renamed rename) := by
+    intro a; simp [parentSeq, List.filter_map, Function.comp_def]
+  rw [hm, hm, hsame i hi]
+
+/-- The loop `for emitted { … }` of `emitReady` always ends because nothing more is ready, never because the
+model's fuel ran out (so the fuel is no restriction of the model). -/
+theorem union_fuel_enough (drain : Bool) (s : UState (WCQ UMsg)) : (Union.emitReadyAll drain s).2.2 = true :=
+  Union.emitReady_ok drain _ s [] (by omega)
+
+/-- Full-strength statement of the remaining union clause (stated, NOT yet proved; checked on every run by
+the spec oracle on the implementation's output and by correspondence): when every parent delivers in time
+order, the output is in non-decreasing time order overall — for every interleaving. -/
+def union_sorted_stmt : Prop :=
+  ∀ (rename : String) (n : Nat) (arrivals : List (Nat × UMsg)), (∀ a ∈ arrivals, a.1 < n) →
+    parentsOrdered n arrivals → unionSorted (Union.run rename n arrivals : UState (WCQ UMsg) × _).2
+
+/-! ### Join -/
 
 /-- Counterexample (defect of snapshot ef0888e, repaired by commit a2e373e): `joinGroup.Barrier` moved
-`oldestTime` to the barrier's time, for which no set exists; the next point of another parent makes
-`emit` dereference the nil queue `g.sets[g.oldestTime]`. Replayed on the real code by
-corpus/C12/barrier-before-point.ops. -/
+`oldestTime` to the barrier's time, for which no set exists; the next point makes `emit` dereference the
+nil queue `g.sets[g.oldestTime]`. Replayed on the real code by corpus/C12/barrier-before-point.ops. -/
 theorem barrierOld_panics :
     (((JGroup.new 2 : JGroup Nat).barrierOld 0 5).1.collect 2 1 10 7).2.2 = Status.panic := by decide
+
+/-- The repaired `Barrier` on the same input does not. -/
+theorem barrier_fixed_witness :
+    (((JGroup.new 2 : JGroup Nat).barrier 0 5).1.collect 2 1 10 7).2.2 = Status.ok := by decide
 
 end Kap.Props.C12
